@@ -6,6 +6,7 @@ import (
 	"fmt"
 	"reflect"
 	"regexp"
+	"runtime"
 	"sort"
 	"strings"
 	"unsafe"
@@ -133,7 +134,18 @@ func (d *Dumper) value(v reflect.Value, depth int) {
 		fmt.Fprintf(&d.sb, "%g", v.Float())
 	case reflect.String:
 		fmt.Fprintf(&d.sb, "%q", d.str(v.String()))
-	case reflect.Func, reflect.Chan, reflect.UnsafePointer:
+	case reflect.Func:
+		// a function stored as data (map/slice/interface value; function-typed struct fields are
+		// skipped): its code identity is part of the state, or states that differ only in which
+		// closure was memoised would be merged. Captured variables remain invisible.
+		if v.IsNil() {
+			d.sb.WriteString("nil")
+		} else if f := runtime.FuncForPC(v.Pointer()); f != nil {
+			d.sb.WriteString("func:" + f.Name())
+		} else {
+			d.sb.WriteString("func:?")
+		}
+	case reflect.Chan, reflect.UnsafePointer:
 		if v.IsNil() {
 			d.sb.WriteString("nil")
 		} else {
